@@ -396,6 +396,9 @@ int main(int argc, char** argv) {
   BoxOpts ol = large_layer(th, {CFG_NATIVE});
   std::vector<ApiGroup> lgroups = api_groups(ol);
   ctx.parallel(lgroups.size(), [&](uint64_t i) { part3(ctx, lgroups[i], ol, cf); }, "public API under every cfg, large ring dimensions");
+  BoxOpts ow = wide_layer({CFG_NATIVE});
+  std::vector<ApiGroup> wgroups = api_groups(ow);
+  ctx.parallel(wgroups.size(), [&](uint64_t i) { part3(ctx, wgroups[i], ow, cf); }, "public API under every cfg, wide shapes");
   ctx.parallel(1, [&](uint64_t) { part4(ctx); }, "dispatch identity");
   std::vector<uint64_t> ms5; for (uint64_t m = 1; m <= (th ? 1024u : 64u); m *= 2) ms5.push_back(m);
   ctx.parallel(ms5.size(), [&](uint64_t i) { part5(ctx, ms5[i]); }, "parameterised constructors under every cfg");
